@@ -53,6 +53,7 @@ AFF_EXPRS = ('x+1', '2*x-c', 'x.sum()', 'x.sum(0)', 'x.sum(1)+y[:2]', 'x.T', 'x@
              '0*y+2')
 CVX_FES = ('ro', 'dro1', 'dro3:xe', 'dro3:ye', 'dro3:xye')
 CHAIN_K_FULL = [('f', 1.0)] + [(c, k) for c in At.CHAINS if c != 'f' for k in At.KS]
+CHAIN_K_FULL_Q = [('f', 1.0)] + [(c, k) for c in At.CHAINS if c != 'f' for k in (2.0, -1.0, -0.5)]
 CHAIN_K_RED = [('f', 1.0), ('k*f', -1.0), ('k*f+c', 2.0), ('c-k*f', 0.5), ('k*f+a', -2.0), ('a+k*f', -1.0),
                ('(k*f+c)*h+g', 0.5), ('k*f+s', 2.0)]
 BI_EXPRS = ('x*z', 'z*x', 'x@z', 'bilin', '(x*z).sum()', 'x[0]*z', 'x*w', 'x*z+y*w', 'x*z+w', 'z+x', '(x*z)[1]',
@@ -61,7 +62,7 @@ BI_ASSIGN = ('none', 'z', 'w', 'zw', 'wz', 'sw:z', 'sw:zw', 'sw:series')
 LDR_Q = ('get', 'coef', 'coef.slice', 'call', 'subcall', 'affcall', 'raw')
 LDR_SPECS_Q = [('z3', 2), ('z2w', 2), ('z2', 1), ('z2', 2)]
 EVT_Q = ('objective', 'get', 'call', 'slice.call', 'aff.call', 'cvx.call', 'mix.call', 'mixcvx.call', 'biaff.call', 'sub.get')
-DAD_Q = ('get', 'coef', 'coef.slice', 'call', 'call.partial', 'call.sw', 'aff.call')
+DAD_Q = ('get', 'coef', 'coef.slice', 'call', 'call.partial', 'call.sw', 'aff.call', 'biaff.call')
 DAD_MASKS_Q = [[[1, 1], [1, 1]], [[1, 0], [0, 1]], [[0, 1], [1, 0]], [[1, 1], [0, 0]], [[0, 0], [0, 1]], [[1, 0], [1, 1]]]
 
 
@@ -128,8 +129,10 @@ def _gen_all(tier, seed):
             for sh in _atom_shapes(atom):
                 for inner in _atom_inners(atom):
                     full = (th or (fe in ('ro', 'dro1') and inner == 'x' and sh == 'v3')) and atom != 'gmean'
-                    for chain, k in (CHAIN_K_FULL if full else CHAIN_K_RED):
-                        for when in (('pre', 'post') if (th or (chain, k) in CHAIN_K_RED[:3]) else ('pre',)):
+                    cks = (CHAIN_K_FULL if th else CHAIN_K_FULL_Q + [ck for ck in CHAIN_K_RED if ck not in CHAIN_K_FULL_Q]) \
+                        if full else CHAIN_K_RED
+                    for chain, k in cks:
+                        for when in (('pre', 'post') if (chain, k) in (CHAIN_K_RED if th else CHAIN_K_RED[:3]) else ('pre',)):
                             yield {'fam': 'cvx', 'fe': fe, 'atom': atom, 'sh': sh, 'inner': inner, 'chain': chain, 'k': k,
                                    'when': when, 'pal': pal}
     # ---- biaff
@@ -161,7 +164,7 @@ def _gen_all(tier, seed):
                         if pin == 'obj' and q not in ('objective', 'get', 'call') and not th:
                             continue
                         for sense in (('min', 'max') if q == 'objective' else ('min',)):
-                            for pl in pals:
+                            for pl in (pals if q in ('objective', 'get', 'call') else (pal,)):
                                 yield {'fam': 'evt', 'n': n, 'lab': lab, 'hist': hist, 'pin': pin, 'q': q, 'sense': sense,
                                        'pal': pl}
     # ---- dadapt
@@ -1096,6 +1099,17 @@ def _run_dadapt(case):
             T.item('(x+pre)(z)', lambda: (x + pre)(z.assign(v1)), [val(s, v1) + np.array([1.0, 2.0]) for s in range(n)], labels=L)
         else:
             T.item('(M22@x+1)()', lambda: (M22 @ x + 1)(), [M22 @ val(s, np.zeros(2)) + 1 for s in range(n)], labels=L)
+    elif q == 'biaff.call':
+        rq0 = float(sol[nconst])
+        pvs = []
+        for s in range(n):
+            e = [i for i, b in enumerate(order_p) if s in b][0]
+            pvs.append(sol[2 + 2 * e: 4 + 2 * e].copy())
+        T.item('(pre*z)(z)', lambda: (pre * z)(z.assign(v1)), [pvs[s] * v1 for s in range(n)], labels=L)
+        if not none_declared:
+            T.tag = 'dadapt|biaff.call(adaptive decision inside)'
+            T.item('(q0*z+x)(z)', lambda: (q0 * z + x)(z.assign(v1)), [rq0 * v1 + val(s, v1) for s in range(n)], labels=L)
+            T.item('(x+pre*z)(z)', lambda: (x + pre * z)(z.assign(v1)), [pvs[s] * v1 + val(s, v1) for s in range(n)], labels=L)
     res = T.result('dadapt:' + q)
     if res['status'] == 'violation':
         firsts = [min(b) for b in order_x]
